@@ -150,34 +150,3 @@ func vc_C20_supertriangle_contains() {
 	}
 }
 
-// Delaunay2d against Delaunay2dSlow: three fixed points and one arbitrary point
-// (in general position with a margin: off the three lines and off the
-// circumcircle of the fixed triangle by 0.05, distinct x values by 0.01).
-func vt_C20_delaunay_fast_equals_slow_n4() {
-	vfTimeouts(4000, 30000)
-	px, py := vfReal("p.x"), vfReal("p.y")
-	vfAssume(vfAnd(px >= -3, px <= 7))
-	vfAssume(vfAnd(py >= -3, py <= 6))
-	fixed := []v2.Vec{{X: 0, Y: 0}, {X: 4, Y: 0.5}, {X: 1, Y: 3}}
-	off := func(v float64, m float64) bool { return vfOr(v >= m, v <= -m) }
-	for i := 0; i < 3; i++ {
-		a, b := fixed[i], fixed[(i+1)%3]
-		vfAssume(off((b.X-a.X)*(py-a.Y)-(b.Y-a.Y)*(px-a.X), 0.2)) // off the line a-b
-		vfAssume(off(px-a.X, 0.01))
-	}
-	// circumcircle of the fixed triangle (centre and radius computed here in concrete arithmetic)
-	ax, ay, bx, by, cx, cy := fixed[0].X, fixed[0].Y, fixed[1].X, fixed[1].Y, fixed[2].X, fixed[2].Y
-	d := 2 * (ax*(by-cy) + bx*(cy-ay) + cx*(ay-by))
-	ux := ((ax*ax+ay*ay)*(by-cy) + (bx*bx+by*by)*(cy-ay) + (cx*cx+cy*cy)*(ay-by)) / d
-	uy := ((ax*ax+ay*ay)*(cx-bx) + (bx*bx+by*by)*(ax-cx) + (cx*cx+cy*cy)*(bx-ax)) / d
-	r2 := (ax-ux)*(ax-ux) + (ay-uy)*(ay-uy)
-	vfAssume(off((px-ux)*(px-ux)+(py-uy)*(py-uy)-r2, 0.3))
-	vs := v2.VecSet{fixed[0], fixed[1], fixed[2], {X: px, Y: py}}
-	fast, err := Delaunay2d(vs)
-	vfAssume(err == nil)
-	slow, err2 := Delaunay2dSlow(vs) // vs is now sorted by x: same indexing
-	vfAssume(err2 == nil)
-	vfReach("delaunay n=4")
-	vfAssert(len(fast) == len(slow), "fast and slow triangulations have the same number of triangles")
-	vfAssert(fast.Equals(slow), "the fast triangulation equals the slow reference as a set")
-}
